@@ -204,6 +204,12 @@ class SFTPFile(BufferedFile):
         return msg.get_string()
 
     def _write(self, data):
+        if len(self._rbuffer) > 0:
+            # read-ahead has taken the underlying position past the one the
+            # caller sees (tell()); the data belongs at the latter, and what
+            # was read ahead may be stale once it is written
+            self._realpos = self._pos
+            self._rbuffer = bytes()
         # may write less than requested if it would exceed max packet size
         chunk = min(len(data), self.MAX_REQUEST_SIZE)
         # registered under this file: a status that arrives while some other
